@@ -31,6 +31,8 @@ def Reason.code : Reason → Nat
 def Kind.code : Kind → Nat
   | .plan => 1 | .checks => 2 | .block => 5 | .sequence => 6 | .action => 7
 
+@[simp] theorem status_beq (a b : Status) : (a == b) = decide (a = b) := by cases a <;> cases b <;> rfl
+
 def Status.terminal : Status → Bool
   | .completed | .failed | .stopped => true
   | _ => false
@@ -39,6 +41,8 @@ def Status.terminal : Status → Bool
 inductive ErrKind where
   | none | transient | permanent | timeout | typeErr
   deriving DecidableEq, Repr, Inhabited, BEq, Hashable
+
+@[simp] theorem errKind_beq (a b : ErrKind) : (a == b) = decide (a = b) := by cases a <;> cases b <;> rfl
 
 /-- is the error one that `exponential.Retry` treats as permanent? -/
 def ErrKind.isPermanent : ErrKind → Bool
